@@ -35,6 +35,7 @@ type Schedule struct {
 	Version string  `json:"stored_version"` // "", "current", "none", or an old version string
 	Steps   []Step  `json:"steps"`
 	Closed  bool    `json:"closed"` // the schedule ends with the fair closure (peer silent, chain advances, services heal, restart)
+	Closure string  `json:"closure"` // "" | "full" | "norestart"
 }
 
 func (w *World) cfgEv() Ev {
@@ -97,7 +98,7 @@ func RunSchedule(w *World, s *Schedule) {
 	if w.Cfg.Retransmit {
 		time.Sleep(30 * time.Millisecond)
 	}
-	w.Emit("end", Ev{"steps": len(s.Steps), "closed": s.Closed})
+	w.Emit("end", Ev{"steps": len(s.Steps), "closed": s.Closed, "closure": s.Closure})
 }
 
 func (w *World) resolveIncl(chain string, incl []string) []string {
